@@ -82,7 +82,9 @@ def duplicate_guard_rule(ctx, rule):
                 rng = any(a[0] == "variant" and ((a[2] == "Some") == t) and re.search(r"::get_mut\(", show(a[1], 300)) and slot_txt(a[1]) for (a, t) in fs)
                 # the tested local is the one stored through, or another binding of the same get_mut(..) element (guard binding / arm binding)
                 same_ = set(k_ for k_, c_ in via_get_mut.items() if show(c_, 400) == show(via_get_mut[nm_], 400))
-                dup = any(a[0] == "variant" and a[2] in ("None", "Some") and ((a[2] == "None") == t) and re.sub(r"[*&()]", "", show(a[1])) in same_ for (a, t) in fs)
+                norm_ = lambda z_: re.sub(r"[*&()]", "", z_)
+                same_ = set(same_) | {norm_(show(via_get_mut[nm_], 400) + "@Some.0")}    # the element itself, tested by a nested pattern `Some(Some(_))`
+                dup = any(a[0] == "variant" and a[2] in ("None", "Some") and ((a[2] == "None") == t) and norm_(show(a[1], 400)) in same_ for (a, t) in fs)
             if dup and rng:
                 rule.ok(key, "dominated by `slot is None` and `esi < len`", loc(s.sp))
             else:
